@@ -5,7 +5,7 @@ CONSTANTS
   Durs = {1}
   CDurs <- ZeroDur
   EDurs <- ZeroDur
-  Rets <- RetsTwoSmall
+  Rets <- RetsOne
   Advs <- AdvsExact
   Decs <- DecsSleep
   BFaults <- BFaultsNone
